@@ -27,6 +27,9 @@ Proof.
   - apply nth_upd_other; assumption.
 Qed.
 
+Lemma nth_map_in {A B} (f : A -> B) l k d d' : k < length l -> nth k (map f l) d' = f (nth k l d).
+Proof. revert k; induction l as [|x t IH]; intros [|k] H; cbn in *; try lia; auto. apply IH; lia. Qed.
+
 Lemma nth_repeat_none {A} (n i : nat) : nth i (repeat (@None A) n) None = None.
 Proof. revert i; induction n; intros [|i]; cbn; auto. Qed.
 
@@ -138,12 +141,10 @@ Section RingInv.
   (** Every slot below the reported length holds one of the last min(n,N) additions;
       every slot at or above it was never written (and is never requested, since
       the model draws from [0, len)). *)
-  Theorem rb_slot_sound N (h : list A) i : 1 <= N ->
-    let b := rb_run N h in
+  Lemma rinv_slot_sound N (b : rb A) (h : list A) i : 1 <= N -> RInv N b h ->
     i < len b -> exists x, nth i (slots b) None = Some x /\ In x (lastn (len b) h).
   Proof.
-    intros HN b Hi. destruct (rb_run_inv N h HN) as (_ & _ & _ & Hn & Hs & _). fold b in Hn, Hs.
-    (* the write position c in [n - len, n) congruent to i *)
+    intros HN (_ & _ & _ & Hn & Hs & _) Hi.
     set (n := length h) in *.
     assert (Hex : exists c, n - len b <= c < n /\ c mod N = i).
     { destruct (Nat.le_gt_cases n N) as [Hsmall|Hbig].
@@ -170,6 +171,12 @@ Section RingInv.
       { rewrite nth_error_skipn'. replace (n - len b + (c - (n - len b))) with c by lia. exact E. }
       eapply nth_error_In, Hsk.
   Qed.
+
+  (** Every slot below the reported length holds one of the last min(n,N) additions. *)
+  Theorem rb_slot_sound N (h : list A) i : 1 <= N ->
+    let b := rb_run N h in
+    i < len b -> exists x, nth i (slots b) None = Some x /\ In x (lastn (len b) h).
+  Proof. intros HN b Hi. apply (rinv_slot_sound N); [exact HN|apply rb_run_inv; exact HN|exact Hi]. Qed.
 
   Theorem rb_unwritten N (h : list A) i : 1 <= N ->
     len (rb_run N h) <= i -> nth i (slots (rb_run N h)) None = None.
